@@ -31,7 +31,9 @@ REQUIRED_COUNTERS = {"cases_with_insert": {"quick": 3000, "thorough": 50000},
                      "cycle_cases": {"quick": 50, "thorough": 500},
                      "deep_progressing_chains": {"quick": 100, "thorough": 2000},
                      "ambiguous_both_readings": {"quick": 10, "thorough": 100},
-                     "none_yielded_by_frame_iterators": {"quick": 300, "thorough": 3000}}
+                     "none_yielded_by_frame_iterators": {"quick": 300, "thorough": 3000},
+                     "multiplying_cycle_cases": {"quick": 50, "thorough": 500},
+                     "frame_iterators_that_are_not_generators": {"quick": 1000, "thorough": 10000}}
 SHARD_TIMEOUT = {"quick": 400, "thorough": 5400}
 EXHAUSTIVE = {"quick": False, "thorough": False}
 
@@ -239,6 +241,39 @@ def worker(spec):
         for k in kids:
             yield k
 
+    # a @yields_frames hook may return any iterator, not only a generator
+    import itertools as _it
+
+    class KidIter(object):
+        def __init__(self, kids):
+            self.kids = list(kids)
+
+        def __iter__(self):
+            return self
+
+        def __next__(self):
+            if not self.kids:
+                raise StopIteration
+            return self.kids.pop(0)
+
+    @yields_frames
+    def it_listiter(kids):
+        return iter(list(kids))
+
+    @yields_frames
+    def it_map(kids):
+        return map(lambda k: k, kids)
+
+    @yields_frames
+    def it_chain(kids):
+        return _it.chain(kids[:1], kids[1:])
+
+    @yields_frames
+    def it_class(kids):
+        return KidIter(kids)
+
+    IT_FLAVOURS = [it_ok, it_listiter, it_map, it_chain, it_class]
+
     @yields_frames
     def it_raises(kids):
         for k in kids:
@@ -258,7 +293,10 @@ def worker(spec):
         if s == "single":
             return w.kids[0] if w.kids else ()
         if s == "iter":
-            return it_ok(w.kids)
+            w.flavour = getattr(w, "flavour", None) or IT_FLAVOURS[W.count % len(IT_FLAVOURS)]
+            if w.flavour is not it_ok:
+                res.count("frame_iterators_that_are_not_generators")
+            return w.flavour(w.kids)
         if s == "iter_raises":
             return it_raises(w.kids)
         if s == "none":
@@ -269,6 +307,9 @@ def worker(spec):
             return w
         if s == "cycle2":
             return w.partner
+        if s == "selfdup":
+            # a cycle that also multiplies: the item unwraps to two copies of itself
+            return (w, w)
         raise AssertionError(s)
 
     ACT = {}
@@ -298,7 +339,7 @@ def worker(spec):
     def unwrap_spec(item):
         if isinstance(item, W):
             s = item.style
-            if s in ("self", "cycle2"):
+            if s in ("self", "cycle2", "selfdup"):
                 return ("cycle", [])
             if s == "none":
                 return None
@@ -420,6 +461,9 @@ def worker(spec):
                 root.kids.append(Leaf(1))            # irreducible tail
             elif r < 0.20:
                 root.kids.append(W("none", []))
+            elif r < 0.22:
+                root.kids.append(W("selfdup", []))   # cycle at the tail that doubles at every step
+                res.count("multiplying_cycle_cases")
             elif r < 0.24:
                 root.kids.append(W("self", []))      # cycle at the tail
             elif r < 0.28:
